@@ -30,7 +30,7 @@ META["C02"] = {
 }
 META["C15"] = {
     "technique": "exhaustive enumeration of short entry sequences + rapid PBT against a reference sequential tar interpreter; root and unprivileged passes",
-    "text": ("All entry sequences up to length 3 (4 in the thorough tier) over a 16-variant alphabet are unpacked as root and as uid 65534 and the "
+    "text": ("All entry sequences up to length 3 (4 in the thorough tier) over a 18-variant alphabet are unpacked as root and as uid 65534 and the "
              "destination is compared with the tree computed by an independent reference interpreter; rapid extends to 12 entries. Exhaustive "
              "within that alphabet, sampled beyond."),
     "note": "The reference interpreter (lib/refunpack) is the trusted base; archives are written with archive/tar.",
